@@ -1,5 +1,6 @@
 #!/bin/bash
 # confirm_seed.sh <out-dir-with patch.diff,demo.rs,meta.json> <scratch worktree> <seed id>
+# Optional env: DEMO_ARGS (e.g. "--features sort_keys"), DEMO_RUSTFLAGS (e.g. "-C target-cpu=x86-64") for the demo runs.
 # Confirms in a scratch worktree (at /repo's current HEAD): patch applies, 90 unit tests pass with it,
 # the demo fails with it and passes without it. On success copies the seed to /verif/seeded/<id>/.
 set -u
@@ -9,16 +10,17 @@ cd "$WT" || exit 2
 git checkout -q --detach "$(git -C /repo rev-parse HEAD)" || exit 2
 git checkout -q -- . ; rm -f tests/seed_demo_*.rs
 LOG=$(mktemp)
+demo_run() { if [ -n "${DEMO_RUSTFLAGS:-}" ]; then RUSTFLAGS="$DEMO_RUSTFLAGS" CARGO_TARGET_DIR=target/alt cargo test --offline ${DEMO_ARGS:-} --test seed_demo_x; else cargo test --offline ${DEMO_ARGS:-} --test seed_demo_x; fi; }
 if ! git apply --check "$OUT/patch.diff" 2>>$LOG; then echo "$ID: patch does not apply"; cat $LOG; exit 1; fi
 git apply "$OUT/patch.diff"
 UT=$(cargo test --offline --lib 2>&1 | grep "test result" | head -1)
 echo "$ID: unit tests with patch: $UT"
 case "$UT" in *"90 passed; 0 failed"*) ;; *) echo "$ID: REJECT unit tests do not pass"; git checkout -q -- .; exit 1;; esac
 mkdir -p tests; cp "$OUT/demo.rs" tests/seed_demo_x.rs
-if cargo test --offline --test seed_demo_x >$LOG 2>&1; then echo "$ID: REJECT demo passes WITH patch"; git checkout -q -- .; rm -f tests/seed_demo_x.rs; exit 1; fi
+if demo_run >$LOG 2>&1; then echo "$ID: REJECT demo passes WITH patch"; git checkout -q -- .; rm -f tests/seed_demo_x.rs; exit 1; fi
 grep -E "test result|panicked" $LOG | head -3
 git checkout -q -- .
-if ! cargo test --offline --test seed_demo_x >$LOG 2>&1; then echo "$ID: REJECT demo fails WITHOUT patch"; grep -E "test result|panicked|error" $LOG | head -5; rm -f tests/seed_demo_x.rs; exit 1; fi
+if ! demo_run >$LOG 2>&1; then echo "$ID: REJECT demo fails WITHOUT patch"; grep -E "test result|panicked|error" $LOG | head -5; rm -f tests/seed_demo_x.rs; exit 1; fi
 grep -E "test result" $LOG | head -2
 rm -f tests/seed_demo_x.rs
 mkdir -p /verif/seeded/$ID
